@@ -120,6 +120,10 @@ def main():
               "(model, component) with at least one Lehmann term" % (len(ms), len(betas), len(NS), len(ZS)))
     c.trusted = ["TLC", "tools/exact.py comparator (mpmath)", "harness gf query"]
     c.assumptions = ["exact family only (rational spectra): generic irrational spectra are reached by C08/C11/C12/C18", "real build"]
+    # call histories of the documented workflow (spec/Workflow.tla): repeated prepare()/compute() are no-ops, a call changes the data of
+    # its own object only, and whatever the history, the finished object holds the data of the canonical linear order
+    import workflow
+    workflow.attach(c, {"GF"}, "Green's function")
     c.finish()
 
 
